@@ -84,3 +84,12 @@ add('C12', 'SYS', 'model_checking',
     'BFS over {evaluate, CI green, queue evaluation, add hold, delete hold comment, merge the dependency, decline} for each hold (wait; after_pull_request on open / declined / merged / unknown / non-numeric id; two dependencies) on an otherwise mergeable pull request, queue and no-queue: while a hold is in place (or the pull request is finished) no integration branch, queue entry, integration PR or merge of it may appear, and once lifted the next evaluation must proceed; plus one pull request per (source, destination) pair of a 10 x 10 name matrix: pairs Bert-E does not handle get no comment, no branch, no pull request.',
     'mock git host; holds placed after the pull request entered the queue do not stop the queue merge: listed as known findings (upstream documents it as intended).',
     'explicit-state BFS with transition monitor', 'DESIGN.md section 5 C12')
+
+add('C20', 'SYS', 'model_checking',
+    'BFS over queue-flow states (0, 1, 2 queued pull requests incl. a hotfix queue, and after a queue merge) crossed, in every state, with create_branch (names older / between / newer / existing / archived / stabilization with and without its development branch / hotfix; branch_from absent, a branch, commits inside and outside the latest development branch), delete_branch for every destination and a missing one, rebuild_queues, delete_queues; oracle: an independent cascade checker + C01 on success, the refusal conditions of the statement, archive tags, untouched remote on refusal, only q/* removed and exact re-submission by rebuild.',
+    'mock git host; layouts D3, S3, H3; build status bypassed so that depth is spent on queue states.',
+    'explicit-state BFS with transition monitor', 'DESIGN.md section 5 C20')
+add('C13', 'THR', 'model_checking',
+    'Real threads run the real put_job / process_task / Job.__eq__ under a baton scheduler with cooperative queue locks; every schedule with at most 2 (thorough 3) preemptions at source-line granularity is executed; oracle: every accepted request is followed by an evaluation of that key that starts after the request arrived; after every job it is finished, recorded with the right status and the current-job marker is cleared; the worker is alive and waiting at quiescence; no deadlock. A free-running pass of the same bodies can only add crash alarms.',
+    'CPython GIL semantics; dispatch replaced by a recorder with a scripted outcome; states/transitions in the evidence are schedules (stateless search).',
+    'stateless preemption-bounded exploration of real threads (CHESS style)', 'DESIGN.md section 5 C13')
